@@ -122,6 +122,7 @@ func cmdHist(o *Out, line string, f []string) {
 	checkEach := len(ops) <= 8
 
 	lastMeta := ""
+	resetSinceMeta := false
 	replacedMeta := map[string]bool{}
 	var obs []string
 	var accepted []string // projected documents accepted and not discarded by a Reset (spec log)
@@ -285,6 +286,7 @@ func cmdHist(o *Out, line string, f []string) {
 			}
 			k := inWriter()
 			c.Reset()
+			resetSinceMeta = true
 			if k <= len(accepted) {
 				accepted = accepted[:k]
 			}
@@ -299,6 +301,7 @@ func cmdHist(o *Out, line string, f []string) {
 				continue
 			}
 			err := ftdc.FlushCollector(c, w)
+			resetSinceMeta = true
 			explicitSplit = true
 			obs = append(obs, "F"+errStr(err))
 			if err == nil && c.Info().SampleCount != 0 {
@@ -318,6 +321,7 @@ func cmdHist(o *Out, line string, f []string) {
 				}
 				lastMeta = hx(pool[int(atoi64(op[1:]))])
 				delete(replacedMeta, lastMeta)
+				resetSinceMeta = false
 			}
 		case 'i':
 			if wc != nil {
@@ -344,11 +348,27 @@ func cmdHist(o *Out, line string, f []string) {
 	// C11, write side: what Resolve emits now never carries a metadata document that a later SetMetadata replaced
 	if wc == nil {
 		if out, err := c.Resolve(); err == nil {
-			for _, d := range wireDocs(out) {
+			wd := wireDocs(out)
+			for _, d := range wd {
 				if strings.HasPrefix(d, "M:") {
 					h := d[strings.LastIndex(d, ":")+1:]
 					if replacedMeta[h] {
 						o.violation(line, "Resolve emits a metadata document that a later SetMetadata had replaced", map[string]string{"stale": h, "current": lastMeta})
+						break
+					}
+				}
+			}
+			// ... and the metadata that is set is emitted ahead of the metric chunks it describes. Whether metadata
+			// survives a Reset (explicit, or inside FlushCollector) is not stated by the property and differs between
+			// the collectors (the base collector keeps it, the batch and dynamic collectors drop it): only histories
+			// without a reset after the last SetMetadata are judged here; the model mirrors each collector.
+			if lastMeta != "" && !resetSinceMeta {
+				for _, d := range wd {
+					if strings.HasPrefix(d, "M:") && d[strings.LastIndex(d, ":")+1:] == lastMeta {
+						break
+					}
+					if strings.HasPrefix(d, "C:") {
+						o.violation(line, "Resolve emits a metric chunk that is not preceded by the metadata document that is set", map[string]string{"metadata": lastMeta})
 						break
 					}
 				}
